@@ -1,6 +1,7 @@
 package an
 
 import (
+	"os"
 	"fmt"
 	"regexp"
 	"sort"
@@ -211,6 +212,10 @@ func runC10(w *World) *Result {
 				disjointScheme = false // a user name is emitted verbatim (no literal prefix)
 			}
 		}
+		helperLocal := map[string]string{}
+		if role == "bash" {
+			helperLocal = c10HelperLocals(b)
+		}
 		seen := map[string]*ownedName{}
 		var order []string
 		for i := range names {
@@ -234,6 +239,8 @@ func runC10(w *World) *Result {
 				r.Ok("R-C10-names", key, n.pos, "not a word of the user identifier language")
 			case disjointScheme && !n.user:
 				r.Ok("R-C10-names", key, n.pos, "user names are emitted with a literal prefix; pattern cannot collide")
+			case role == "bash" && !n.user && helperLocal[n.pattern] != "":
+				r.Ok("R-C10-names", key, n.pos, helperLocal[n.pattern])
 			default:
 				what := "compiler-owned"
 				if n.user {
@@ -262,4 +269,157 @@ func runC10(w *World) *Result {
 		}
 	}
 	return r
+}
+
+// c10HelperLocals: variable names that are only ever assigned inside helper routines that
+// declare them local first, and during whose lifetime no variable named by the user is
+// dereferenced (eval with a positional parameter that receives a user variable name, in
+// the helper itself after the declaration or in a helper it calls afterwards). Bash
+// locals are dynamically scoped: only such a dereference can see the helper's local
+// instead of the user's variable of the same name; the user's variable itself is never
+// written.
+func c10HelperLocals(b *Backend) map[string]string {
+	reAssign := regexp.MustCompile(`(?:^|[ ;(])(local )?([A-Za-z_][A-Za-z0-9_]*)(?:\+\+|=)`)
+	reLocalList := regexp.MustCompile(`(?:^|[ ;(])local ((?:[A-Za-z_][A-Za-z0-9_]*(?:=\S*)? ?)+)`)
+	// positional parameters of helpers that receive user variable names
+	byName := map[string]map[int]bool{}
+	for _, l := range b.Lines {
+		if l.Bash == nil {
+			continue
+		}
+		for _, h := range l.Bash.Holes {
+			if _, ok := b.Helpers[h.Cmd]; ok && classOfOrigin(h.Origin, l.CellType) == ClsIdent && !h.InParam {
+				if byName[h.Cmd] == nil {
+					byName[h.Cmd] = map[int]bool{}
+				}
+				byName[h.Cmd][h.ArgIndex] = true
+			}
+		}
+	}
+	if os.Getenv("VERIF_DEBUG") != "" {
+		fmt.Fprintln(os.Stderr, "c10 byName:", byName)
+	}
+	type occ struct {
+		helper string
+		line   int
+		local  bool
+	}
+	occs := map[string][]occ{}
+	derefLines := map[string][]int{} // helper -> lines that dereference a user-named variable
+	callLines := map[string]map[int][]string{}
+	for _, l := range b.Lines {
+		if l.Bash == nil || l.Bash.Comment {
+			continue
+		}
+		if l.Em.Helper == "" {
+			txt, _ := flattenPUA(l.Variant)
+			for _, m := range reAssign.FindAllStringSubmatch(txt, -1) {
+				occs[m[2]] = append(occs[m[2]], occ{"", -1, false})
+			}
+		}
+	}
+	for h, lines := range b.Helpers {
+		callLines[h] = map[int][]string{}
+		for i, l := range lines {
+			txt, _ := flattenPUA(l.Variant)
+			for _, m := range reAssign.FindAllStringSubmatch(txt, -1) {
+				occs[m[2]] = append(occs[m[2]], occ{h, i, m[1] != ""})
+			}
+			for _, m := range reLocalList.FindAllStringSubmatch(txt, -1) {
+				for _, w := range strings.Fields(m[1]) {
+					name := w
+					if k := strings.Index(w, "="); k >= 0 {
+						name = w[:k]
+					}
+					occs[name] = append(occs[name], occ{h, i, true})
+				}
+			}
+			if strings.HasPrefix(strings.TrimSpace(txt), "for ((") {
+				for _, m := range regexp.MustCompile(`([A-Za-z_][A-Za-z0-9_]*)(?:=|\+\+)`).FindAllStringSubmatch(txt, -1) {
+					occs[m[1]] = append(occs[m[1]], occ{h, i, false})
+				}
+			}
+			if strings.Contains(txt, "eval") {
+				for k := range byName[h] {
+					if strings.Contains(txt, fmt.Sprintf("${%d}", k)) || strings.Contains(txt, fmt.Sprintf("$%d", k)) {
+						derefLines[h] = append(derefLines[h], i)
+					}
+				}
+			}
+			callLines[h][i] = invokedHelpers(b, l)
+		}
+	}
+	// helpers that (transitively) dereference user names
+	derefs := func(h string) bool {
+		seen := map[string]bool{}
+		var walk func(x string) bool
+		walk = func(x string) bool {
+			if seen[x] {
+				return false
+			}
+			seen[x] = true
+			if len(derefLines[x]) > 0 {
+				return true
+			}
+			for _, cs := range callLines[x] {
+				for _, c := range cs {
+					if walk(c) {
+						return true
+					}
+				}
+			}
+			return false
+		}
+		return walk(h)
+	}
+	out := map[string]string{}
+	for name, os := range occs {
+		first := map[string]int{}
+		firstLocal := map[string]bool{}
+		ok := len(os) > 0
+		for _, o := range os {
+			if o.helper == "" {
+				ok = false
+				break
+			}
+			if f, seen := first[o.helper]; !seen || o.line < f || (o.line == f && o.local) {
+				first[o.helper] = o.line
+				firstLocal[o.helper] = o.local
+			}
+		}
+		if !ok {
+			continue
+		}
+		var hs []string
+		for h := range first {
+			if !firstLocal[h] {
+				ok = false
+			}
+			hs = append(hs, h)
+		}
+		if !ok {
+			continue
+		}
+		for _, h := range hs {
+			for _, dl := range derefLines[h] {
+				if dl > first[h] {
+					ok = false
+				}
+			}
+			for i, cs := range callLines[h] {
+				if i > first[h] {
+					for _, c := range cs {
+						if c != h && derefs(c) {
+							ok = false
+						}
+					}
+				}
+			}
+		}
+		if ok {
+			sort.Strings(hs)
+			out[name] = "declared local in " + strings.Join(hs, ", ") + " before its first use there; no variable named by the user is dereferenced while it is in scope, and the user's variable of that name is never written"
+		}
+	}
+	return out
 }
